@@ -6,11 +6,13 @@ V = "/verif"
 want = set(sys.argv[1:])
 rows = []
 # second round (after the repairs): /tmp/seed2/out-Cxx/{a,b} are filed as Cxx-c, Cxx-d
-for d in sorted(glob.glob("/tmp/seed/out-C*/[ab]")) + sorted(glob.glob("/tmp/seed2/out-C*/[ab]")) + sorted(glob.glob("/tmp/seed3/out-C*/[ab]")) + sorted(glob.glob("/tmp/seed4/out-C*/[ab]")) + sorted(glob.glob("/tmp/seed5/out-C*/[ab]")):
+for d in sorted(glob.glob("/tmp/seed/out-C*/[ab]")) + sorted(glob.glob("/tmp/seed2/out-C*/[ab]")) + sorted(glob.glob("/tmp/seed3/out-C*/[ab]")) + sorted(glob.glob("/tmp/seed4/out-C*/[ab]")) + sorted(glob.glob("/tmp/seed5/out-C*/[ab]")) + sorted(glob.glob("/tmp/seed6/out-C*/[ab]")):
     prop = re.search(r"out-(C\d+)", d).group(1)
     letter = os.path.basename(d)
     if d.startswith("/tmp/seed2/"):
         letter = {"a": "c", "b": "d"}[letter]
+    if d.startswith("/tmp/seed6/"):
+        letter = {"a": "k", "b": "l"}[letter]
     if d.startswith("/tmp/seed5/"):
         letter = {"a": "i", "b": "j"}[letter]
     if d.startswith("/tmp/seed4/"):
